@@ -80,6 +80,15 @@ class FrameObject(ctypes.Structure):
         _fields_.insert(0, ("ob_debug", ctypes.c_byte * extra_header_bytes))
 
 
+class FrameObjectFramePointer(ctypes.Structure):
+    # The same prefix as FrameObject, but with f_frame as a plain integer, so
+    # that the pointer value can be read and compared without making any calls
+    _fields_: List[Tuple[str, Type["ctypes._CData"]]] = [
+        (name, ctypes.c_size_t if name == "f_frame" else typ)
+        for name, typ in FrameObject._fields_
+    ]
+
+
 FRAME_OWNED_BY_THREAD = 0
 FRAME_OWNED_BY_GENERATOR = 1
 FRAME_OWNED_BY_FRAME_OBJECT = 2
@@ -125,6 +134,7 @@ def inspect_frame(frame: FrameType) -> FrameDetails:
     # Basic sanity checks cross-referencing the values we can get from Python
     # with their Python values
     frame_raw = FrameObject.from_address(id(frame))
+    frame_raw_ptr = FrameObjectFramePointer.from_address(id(frame))
     refcnt = frame_raw.ob_refcnt
     assert refcnt + 1 == sys.getrefcount(frame)
     assert frame_raw.ob_type == id(type(frame))
@@ -174,16 +184,32 @@ def inspect_frame(frame: FrameType) -> FrameDetails:
             # we read from iframe_raw. All accesses to the
             # InterpreterFrame object are kept within this
             # consistency-checked loop for that reason.
+            #
+            # If the other thread exits, the memory that held its
+            # InterpreterFrames is returned to the operating system, so
+            # reading through a stale pointer would crash rather than
+            # just produce garbage. Python only considers switching
+            # threads before making a backward jump or after making a
+            # call, so we fetch the pointer and copy out every field we
+            # need in one straight-line sequence of attribute reads,
+            # and only then start calling functions to validate them.
+            iframe_addr = frame_raw_ptr.f_frame
             iframe_raw = frame_raw.f_frame.contents
-            assert iframe_raw.f_globals == id(frame.f_globals)
-            assert iframe_raw.f_builtins == id(frame.f_builtins)
-            assert iframe_raw.f_code == id(frame.f_code)
+            raw_globals = iframe_raw.f_globals
+            raw_builtins = iframe_raw.f_builtins
+            raw_code = iframe_raw.f_code
+            raw_frame_obj = iframe_raw.frame_obj
+            stacktop_copy = iframe_raw.stacktop
+            frame_owner = iframe_raw.owner  # one of the FRAME_OWNED_BY_* constants
+
+            assert raw_globals == id(frame.f_globals)
+            assert raw_builtins == id(frame.f_builtins)
+            assert raw_code == id(frame.f_code)
             # frame_obj is null if this iframe is owned by the frame object (thus
             # physically contained within it), to avoid a circular reference
-            assert iframe_raw.frame_obj in (0, id(frame))
+            assert raw_frame_obj in (0, id(frame))
 
             # Figure out what portion of the stack is actually valid
-            stacktop_copy = iframe_raw.stacktop
             if stacktop_copy == -1:
                 # Frames that are currently executing have stacktop == -1.
                 # Trim the stack at the depth it would be popped to before
@@ -193,8 +219,6 @@ def inspect_frame(frame: FrameType) -> FrameDetails:
             else:
                 stack_top_offset = localsplus_offset + wordsize * stacktop_copy
                 assert stack_start_offset <= stack_top_offset <= end_offset
-
-            frame_owner = iframe_raw.owner  # one of the FRAME_OWNED_BY_* constants
 
             stack_len = (stack_top_offset - stack_start_offset) // wordsize
             stack_ptr = (ctypes.py_object * stack_len).from_address(
@@ -220,10 +244,18 @@ def inspect_frame(frame: FrameType) -> FrameDetails:
                     # has continued execution and happened to wind up in the
                     # same place, because it will have the same stack depth.)
                     #
-                    # Note this also suffices to check that the frame remains
-                    # pinned on the thread stack if it was before, because
-                    # finishing execution would change lasti.
-                    assert frame.f_lasti == lasti_before
+                    #
+                    # lasti alone doesn't tell us that the frame is still
+                    # where it was: if the call it is in the middle of raises,
+                    # the frame finishes without lasti changing. So also check
+                    # that the frame object still points to the same
+                    # InterpreterFrame (it's repointed when the frame finishes).
+                    # There are no calls between this check and the read below,
+                    # so the other thread can't run in between.
+                    assert (
+                        frame.f_lasti == lasti_before
+                        and frame_raw_ptr.f_frame == iframe_addr
+                    )
 
                     try:
                         # Read the PyObject* from memory and take a reference to it,
@@ -237,9 +269,10 @@ def inspect_frame(frame: FrameType) -> FrameDetails:
                     details.stack.append(obj)
 
             assert frame.f_lasti == lasti_before
+            assert frame_raw_ptr.f_frame == iframe_addr
 
         except AssertionError:
-            if frame.f_lasti == lasti_before:
+            if frame.f_lasti == lasti_before and frame_raw_ptr.f_frame == iframe_addr:
                 raise
             # otherwise this was probably a concurrent modification, try again
             continue
